@@ -17,6 +17,7 @@
  *   outside-storage        granted buffer lies inside [base, base+S)
  *   size                   capacity == n          (acquire)
  *   size-up-to             min <= capacity <= n   (acquire_up_to)
+ *   idle-up-to-short       acquire_up_to with nothing outstanding and n <= S grants n
  *   overlap                granted interval is disjoint from every outstanding interval
  *   pattern                bytes of every outstanding buffer are still the ones written at grant time
  *                          (checked after EVERY operation; independent of the interval arithmetic above)
@@ -319,6 +320,10 @@ static void do_acquire(int is_upto, size_t min, size_t n, const char *nm) {
         ESX_CHECK(len >= min && len <= n, "size-up-to", "%s granted %zu bytes", nm, len);
     else
         ESX_CHECK(len == n, "size", "%s granted %zu bytes", nm, len);
+    /* header: the up-to form falls back to a smaller grant only "if [requested_size is] not available"; with nothing outstanding
+     * the full capacity is available, so a request not larger than the ring gets all of it */
+    if (is_upto && !esx_failed && nout_before == 0 && nout == 0 && n <= S)
+        ESX_CHECK(len == n, "idle-up-to-short", "%s granted only %zu bytes with nothing outstanding on a ring of %zu bytes (head was at %zu)", nm, len, S, head_before);
     if (esx_failed) return;
     ESX_CHECK(dest.buffer != NULL, "outside-storage", "%s succeeded with a NULL buffer", nm);
     if (esx_failed) return;
